@@ -45,6 +45,18 @@ def varyFlagsHand (_stage : Nat) : Bool := false
 def copyPosErrHand (stage : Nat) : Bool := decide (stage < 2)
 def copyShapeErrHand (stage : Nat) : Bool := decide (stage < 3)
 
+/-- fall-back of the regenerated per-source acceptance decision (source_finder.py: `if not 0 <= x < shape[0] or … :
+    continue`): `true` = the row is skipped.  `data_finite`, `rms_finite`, `beam_none` are 0/1 encodings of
+    `np.isfinite(data[x, y])`, `np.isfinite(rmsimg[x, y])`, `pixbeam is None`. -/
+def rejectSrcHand (x y : Int) (shape0 shape1 data_finite rms_finite beam_none : Nat) : Bool :=
+  !(decide (0 ≤ x) && decide (x < (shape0 : Int)) && decide (0 ≤ y) && decide (y < (shape1 : Int))
+    && decide (data_finite ≠ 0) && decide (rms_finite ≠ 0) && decide (beam_none = 0))
+
+/-- the slip of seeded change C05-11, kept for the negation witness: both indices compared with the number of columns -/
+def rejectBothAgainstColumns (x y : Int) (shape0 shape1 data_finite rms_finite beam_none : Nat) : Bool :=
+  !(decide (0 ≤ x) && decide (x < (shape1 : Int)) && decide (0 ≤ y) && decide (y < (shape1 : Int))
+    && decide (data_finite ≠ 0) && decide (rms_finite ≠ 0) && decide (beam_none = 0))
+
 /-! ### the pinned (defective) float bounds, in half-pixel units
 
 `x - xwidth / 2` is a Python float; all the values involved are integers or half-integers, so the
